@@ -360,6 +360,16 @@ let handle (r : reader) : unit =
       out_s "OK";
       out_s (" " ^ string_of_int (List.length out));
       List.iter (fun ((x, y), s) -> out_n x; out_n y; out_ranges s) out
+  | "STBM" ->
+      (* STBM dt ds k (time_cell space_cell)*  -> the streaming (time cell, space cell) builder without flush
+         (Model/STBuilder.v st_build): n (<time ranges> <space ranges>)* *)
+      let dt = next_n r in
+      let ds = next_n r in
+      let buff = next_list r (fun r -> let a = next_n r in let b = next_n r in (a, b)) in
+      let out = st_build dt ds buff in
+      out_s "OK";
+      out_s (" " ^ string_of_int (List.length out));
+      List.iter (fun (t, s) -> out_ranges t; out_ranges s) out
   | "CANON" ->
       let l = next_ranges r in
       out_s "OK";
